@@ -236,7 +236,7 @@ class WorkWorld(World):
         if leg == 'boc-bytes':
             return {'ncells': rng.choice([1, 2, 3, 5, 8, 12]), 'exotic': rng.random() < 0.3, 'dag_seed': rng.getrandbits(32)}
         if leg == 'tl-bytes':
-            return {'seed': rng.getrandbits(32)}
+            return {'seed': rng.getrandbits(32), 'vclass': run_index}
         if leg == 'tl-nested':
             fam = NESTED_FAMILIES[run_index % len(NESTED_FAMILIES)]
             return {'family': fam, 'depth': rng.choice([6, 10, 14, 18, 22]), 'wrap': rng.choice(NESTED_WRAPPERS), 'seed': rng.getrandbits(32)}
@@ -494,6 +494,19 @@ class WorkWorld(World):
             g = tlworld.Gen(rng, ref, set(k[::-1] for k in sch.id_map.keys()))
             # constructors with vectors / bytes are the interesting ones
             pool = [n for n in ref.domain if any(reftl.vector_elem(f.type) or f.type in ('bytes', 'string') for f in ref.by_name[n].fields)]
+            # every element kind of a vector gets its share of runs: the count field of each is a separate code path
+            classes = {}
+            for n in pool:
+                for f in ref.by_name[n].fields:
+                    el = reftl.vector_elem(f.type.split('?')[-1])
+                    if el:
+                        k = el if el in ('int', 'long', 'int256', 'int128', 'bytes', 'string', 'Bool') else ('bare' if reftl.is_bare_name(el) else 'boxed')
+                        classes.setdefault('vector-of-' + k, []).append(n)
+            order = sorted(classes) + ['any', 'any']
+            want = order[rng.randrange(len(order))] if ctx.cfg.get('vclass') is None else order[ctx.cfg['vclass'] % len(order)]
+            if want != 'any':
+                pool = sorted(set(classes[want]))
+                ctx.probe('tl-' + want)
             for _ in range(20):
                 name = rng.choice(pool)
                 val = g.obj(ref.by_name[name], 3, typed=True)
